@@ -1,6 +1,8 @@
 package props
 
 import (
+	"context"
+	"errors"
 	"fmt"
 	"io"
 	"os"
@@ -10,6 +12,7 @@ import (
 	"sort"
 	"strings"
 	"sync"
+	"syscall"
 	"time"
 
 	"github.com/glebziz/fs_db"
@@ -30,6 +33,7 @@ func init() {
 			"p2steady": {N: func(t string) int { return tierN(t, 6, 320) }, Case: c15Case("p2"), Race: true, Env: raceEnv()},
 			"p3server": {N: func(t string) int { return tierN(t, 3, 160) }, Case: c15Case("p3"), Race: true, Env: raceEnv()},
 			"p4create": {N: func(t string) int { return tierN(t, 3, 160) }, Case: c15Case("p4"), Race: true, Env: raceEnv()},
+			"p5faulty": {N: func(t string) int { return tierN(t, 4, 240) }, Case: c15Case("p5"), Race: true, Env: raceEnv()},
 		},
 	})
 }
@@ -158,9 +162,16 @@ func c15Case(prog string) func(string, int64, int, string) rt.CaseResult {
 		case "p1":
 			logs = c15Cold(&c, seed, idx, scratch)
 		case "p2":
-			logs = c15Steady(&c, seed, idx, scratch, dbx.Inline, tierN(tier, 700, 1500))
+			logs = c15Steady(&c, seed, idx, scratch, dbx.Inline, tierN(tier, 700, 1500), false)
 		case "p3":
-			logs = c15Steady(&c, seed, idx, scratch, dbx.Grpc, tierN(tier, 500, 800))
+			logs = c15Steady(&c, seed, idx, scratch, dbx.Grpc, tierN(tier, 500, 800), false)
+		case "p5":
+			// the same workload with faults: the error paths run concurrently too
+			m := dbx.Inline
+			if idx%2 == 1 {
+				m = dbx.Grpc
+			}
+			logs = c15Steady(&c, seed, idx, scratch, m, tierN(tier, 500, 900), true)
 		case "p4":
 			logs = c15Create(&c, seed, idx, scratch)
 		}
@@ -278,17 +289,56 @@ func c15Op(db fs_db.DB, kind, key, tag string) {
 }
 
 // c15Steady: mixed workload on one handle (inline, or gRPC server + clients in this process).
-func c15Steady(c *rt.CaseResult, seed int64, idx int, scratch string, mode dbx.Mode, opsPer int) [][]tlog {
+func c15Steady(c *rt.CaseResult, seed int64, idx int, scratch string, mode dbx.Mode, opsPer int, faulty bool) [][]tlog {
 	sd := time.Millisecond
 	if idx%2 == 0 {
 		sd = 1
 	}
-	env, err := dbx.Open(dbx.Options{Mode: mode, Dir: filepath.Join(scratch, "db"), GCPeriod: 2 * time.Millisecond, SendDuration: sd, NumWorkers: 2, Roots: 1 + idx%2})
+	roots := 1 + idx%2
+	if faulty {
+		roots = 2
+	}
+	env, err := dbx.Open(dbx.Options{Mode: mode, Dir: filepath.Join(scratch, "db"), GCPeriod: 2 * time.Millisecond, SendDuration: sd, NumWorkers: 2, Roots: roots})
 	if err != nil {
 		c.Violate("open-failed", err.Error(), nil)
 		return [][]tlog{{}}
 	}
 	defer env.Close()
+	if faulty {
+		// fault functions without any shared state (they must not order the goroutines they are
+		// called from): decisions come from the low bits of the clock
+		root0 := filepath.Clean(env.Cfg.Storage.RootDirs[0])
+		verif.SetDiskFree(func(root string) (uint64, bool) {
+			if filepath.Clean(root) == root0 {
+				return 1000, true
+			}
+			return 5000, true
+		})
+		verif.SetWriteFault(func(path string, p []byte) (int, error, bool) {
+			switch (time.Now().UnixNano() >> 5) & 63 {
+			case 0:
+				return 0, syscall.ENOSPC, true
+			case 1:
+				return len(p) / 2, syscall.ENOSPC, true
+			case 2:
+				return len(p) / 3, syscall.EIO, true
+			}
+			return 0, nil, false
+		})
+		verif.SetOpFault(func(op, path string) error {
+			n := (time.Now().UnixNano() >> 5) & 127
+			if n == 5 && (op == "badger.set" || op == "badger.txn.set" || op == "badger.txn" || op == "badger.delete") {
+				return errors.New("injected metadata failure")
+			}
+			if n == 9 && op == "os.create" {
+				return errors.New("injected create failure")
+			}
+			return nil
+		})
+		defer verif.SetDiskFree(nil)
+		defer verif.SetWriteFault(nil)
+		defer verif.SetOpFault(nil)
+	}
 	workers := 6
 	logs := make([][]tlog, workers+1)
 	t0 := time.Now()
@@ -322,6 +372,12 @@ func c15Steady(c *rt.CaseResult, seed int64, idx int, scratch string, mode dbx.M
 				tag := fmt.Sprintf("s%d-g%d-%d", idx, g, i)
 				s := time.Since(t0)
 				kind := ""
+				ctxBg := ctxBg
+				cancel := func() {}
+				if faulty && rng.Intn(8) == 0 {
+					// a caller that gives up early
+					ctxBg, cancel = context.WithTimeout(ctxBg, time.Duration(20+rng.Intn(600))*time.Microsecond)
+				}
 				var st fs_db.Store = env.DB
 				if tx != nil && rng.Intn(4) > 0 {
 					st = tx
@@ -364,6 +420,7 @@ func c15Steady(c *rt.CaseResult, seed int64, idx int, scratch string, mode dbx.M
 					kind = "getkeys"
 					st.GetKeys(ctxBg)
 				}
+				cancel()
 				logs[g] = append(logs[g], tlog{kind, s, time.Since(t0)})
 			}
 			if tx != nil {
@@ -426,4 +483,8 @@ func c15Create(c *rt.CaseResult, seed int64, idx int, scratch string) [][]tlog {
 	}
 	wg.Wait()
 	return logs
+}
+
+func init() {
+	Registry["C15"].Rule += " P5: the steady workload (inline and through the server) with faults injected by stateless fault functions - a few percent of the content writes fail (no space, fully or after half the chunk; EIO), of the metadata writes and file creations fail, one root reports less free space than the other, and one call in eight carries a context that expires within 20-600 us - so that the error and clean-up paths run concurrently under the race detector too."
 }
